@@ -201,9 +201,9 @@ theorem C16_intermediate_items_partial (N : Name) {h₀ : Heap} (ht : TreeShaped
 /-- FULL-STRENGTH statement for container mutations (NOT a theorem of the code as
 it is): every change of a `.` link is reported.  False because `ListenerParser`
 gives only the FIRST item the handler's type and every later item `ANY_LISTENER`
-(traits_listener.py:1062-1066, 1190-1197, "bug-for-bug compatibility",
+(traits_listener.py:1068-1072, 1196-1203, "bug-for-bug compatibility",
 enthought/traits#537), and `_register_list/_register_dict` attach the handler to
-`<name>_items` only for `ANY_LISTENER` (traits_listener.py:696-704, 791-799). -/
+`<name>_items` only for `ANY_LISTENER` (traits_listener.py:696-704, 794-802). -/
 def C16_intermediate_items_full : Prop :=
   ∀ (N : Name) (h₀ : Heap) (_ : TreeShaped h₀) (ops : List Op) (op : Op) (a : Attr),
     (mutate (run N (start h₀) ops).h op).map (·.trait) = some (.items a) →
@@ -233,7 +233,7 @@ object carries a notifier of the registration; and whatever happens afterwards
 theorem C16_remove_stops (N : Name) {h₀ : Heap} (ht : TreeShaped h₀) (ops : List Op) :
     (∀ k, (run N (start h₀) (ops ++ [.unreg])).s.active k = []) ∧
     (∀ o, (run N (start h₀) (ops ++ [.unreg])).s.hooks o = []) ∧
-    ∀ (ops' : List Op), (∀ op ∈ ops', op ≠ .reg) → ∀ op, op ≠ .reg →
+    ∀ (ops' : List Op), (∀ op ∈ ops', op.isReg = false) → ∀ op, op.isReg = false →
       (step N (run N (start h₀) (ops ++ [.unreg] ++ ops')) op).2.2 = [] := by
   have hinv := inv_run (N := N) ht (ops ++ [.unreg])
   have hreg : (run N (start h₀) (ops ++ [.unreg])).registered = false := by
@@ -248,18 +248,33 @@ theorem C16_remove_stops (N : Name) {h₀ : Heap} (ht : TreeShaped h₀) (ops : 
     fun o => hinv.good.none o (fun k => hact k o), ?_⟩
   intro ops' hops' op hop
   rw [run_append]
+  have hne : ∀ op : Op, op.isReg = false → op ≠ .reg := by
+    intro op h e; rw [e] at h; cases h
   have key : ∀ (ops' : List Op) (st : St), Inv N st → st.registered = false →
-      (∀ op ∈ ops', op ≠ .reg) → Inv N (run N st ops') ∧ (run N st ops').registered = false := by
+      (∀ op ∈ ops', op.isReg = false) → Inv N (run N st ops') ∧ (run N st ops').registered = false := by
     intro ops'
     induction ops' with
     | nil => intro st hi hr _; exact ⟨hi, hr⟩
     | cons x xs ih =>
       intro st hi hr hx
       simp only [run]
-      exact ih _ (step_inv hi x) (not_registered_calls hi hr x (hx x (by simp))).1
+      have hx0 := hx x (by simp)
+      exact ih _ (step_inv hi x)
+        (not_registered_calls hi hr x (hne x hx0)).1
         (fun op hop => hx op (by simp [hop]))
   obtain ⟨hi, hr⟩ := key ops' _ hinv hreg hops'
-  exact (not_registered_calls hi hr op hop).2
+  exact (not_registered_calls hi hr op (hne op hop)).2
+
+/-! ### deferred registrations
+
+`Name.deferred` (the `deferred=True` keyword, every `@on_trait_change` method) does not
+occur in any hypothesis above: since /repo 0c9dae1 a deferred first item skips the walk
+into its container only while the container is not materialised in `object.__dict__`,
+i.e. still the empty default, so `registerTop` is `register` (see Model/Legacy.lean) and
+all theorems hold for deferred and plain registrations alike, whenever they are made.
+Before that commit the refinement invariant failed for `root.kids = [N()]` followed by a
+deferred registration of `kids:value` (finding F87, now fixed); the examples below are the
+former negation witness, now positive. -/
 
 /-! ### non-vacuity: concrete histories -/
 
@@ -279,5 +294,14 @@ example : (step exName (run exName (start Heap.init) exOps) (.splice 1 0 1 1)).2
 -- … and nothing after removal.
 example : (step exName (run exName (start Heap.init) (exOps ++ [.unreg])) (.probe 3 .value)).2.2 = [] := by
   decide
+
+-- a deferred registration made when `root.kids` already holds object 1 hooks it …
+example : (run lateName (start Heap.init) lateOps).s.active 1 = [1] := by decide
+example : (step lateName (run lateName (start Heap.init) lateOps) (.probe 1 .value)).2.2 = [(1, .final .value)] := by
+  decide
+-- … the decorator shape (registered first, items arrive later) hooks them as they arrive,
+-- and removal tears everything down
+example : (run lateName (start Heap.init) (decoOps.take 3)).s.active 1 = [1, 2] := by decide
+example : (step lateName (run lateName (start Heap.init) decoOps) (.probe 1 .value)).2.2 = [] := by decide
 
 end TraitsVerif.Props.C16
